@@ -317,7 +317,7 @@ theorem C18_lit_accepted (k : Nat) (hk : 33 ≤ k) : (readR 280 (faultReader lit
     decide
   have hc : coverage [(([97,98,99,100], 28, 5) : TocRec)] = [(28, 33)] := by simp [coverage]
   have hn : beVal (List.take 2 (List.drop 4 ([0, 1, 0, 0, 0, 1] : Bytes))) = 1 := by decide
-  unfold readR
+  unfold readR readRG
   rw [h0]
   simp only
   rw [hn, hd]
